@@ -62,6 +62,7 @@ func runC20(w *World, r *Report) {
 	c20Panic(w, r, scope, prot)
 	c20VErr(w, r, scope, prot)
 	c20NilElem(w, r)
+	c20LintNilElems(w, r)
 	c20Recover(w, r)
 	c20Depth(w, r)
 	c20NilHole(w, r)
@@ -546,6 +547,122 @@ func c20NilElem(w *World, r *Report) {
 	}
 }
 
+// c20LintNilElems: the chart linter reads Chart.yaml without validating it, so in its rules an element of
+// a decoded list of pointers (maintainers, dependencies) is dereferenced only after a nil test — unless the
+// chart came from the loader, which rejects null elements.
+func c20LintNilElems(w *World, r *Report) {
+	n := 0
+	seen := map[string]int{}
+	for _, fn := range w.FuncsIn("pkg/lint/rules") {
+		var g *Graph
+		for _, b := range fn.Blocks {
+			for _, in := range b.Instrs {
+				// element loads: *(&list[i]) with list a load of a decoded field of pointers
+				ld, ok := in.(*ssa.UnOp)
+				if !ok || ld.Op != token.MUL {
+					continue
+				}
+				ia, ok := ld.X.(*ssa.IndexAddr)
+				if !ok {
+					continue
+				}
+				lst, ok := ia.X.(*ssa.UnOp)
+				if !ok || lst.Op != token.MUL {
+					continue
+				}
+				fa, ok := lst.X.(*ssa.FieldAddr)
+				if !ok {
+					continue
+				}
+				fld, isDecoded := decodedListField(fa)
+				if !isDecoded {
+					continue
+				}
+				if _, isPtr := ld.Type().Underlying().(*types.Pointer); !isPtr {
+					continue
+				}
+				// the metadata came from the validating loader?
+				fromLoader := false
+				backSlice(fa.X, func(v ssa.Value) bool {
+					if c, isC := v.(*ssa.Call); isC {
+						if f, _ := calleeOf(c.Common()); f != nil && strings.HasSuffix(fnPkgPath(f), "/pkg/chart/v2/loader") {
+							fromLoader = true
+						}
+						return true
+					}
+					return false
+				})
+				if !fromLoader {
+					// a parameter: every caller hands in a chart that came from the loader?
+					var prm *ssa.Parameter
+					backSlice(fa.X, func(v ssa.Value) bool {
+						if p, isP := v.(*ssa.Parameter); isP {
+							prm = p
+							return true
+						}
+						_, isC := v.(*ssa.Call)
+						return isC
+					})
+					if prm != nil && prm.Parent() == fn {
+						idx := paramIndex(fn, prm)
+						callers, all := 0, true
+						for _, cf := range w.FuncsIn("pkg/lint/rules") {
+							for _, c := range callInstrs(cf) {
+								if f, _ := calleeOf(c.Common()); f == nil || origin(f) != fn || idx >= len(c.Common().Args) {
+									continue
+								}
+								callers++
+								okArg := false
+								backSlice(c.Common().Args[idx], func(v ssa.Value) bool {
+									if cc, isC := v.(*ssa.Call); isC {
+										if f, _ := calleeOf(cc.Common()); f != nil && strings.HasSuffix(fnPkgPath(f), "/pkg/chart/v2/loader") {
+											okArg = true
+										}
+										return true
+									}
+									return false
+								})
+								if !okArg {
+									all = false
+								}
+							}
+						}
+						fromLoader = callers > 0 && all
+					}
+				}
+				if fromLoader {
+					continue
+				}
+				derefs := derefsOf(ld)
+				if len(derefs) == 0 {
+					continue
+				}
+				if g == nil {
+					g = FullGraph(fn)
+				}
+				_, nonNil := nilTestEdges(ld)
+				bad := ""
+				for _, d := range derefs {
+					if ex, _ := g.PathExists(posOf(ld), posOf(d), Avoid{}.withEdges(nonNil...)); ex {
+						bad = w.InstrPos(d)
+					}
+				}
+				n++
+				key := "lint/" + FuncName(fn) + "/" + fld
+				seen[key]++
+				if seen[key] > 1 {
+					key = fmt.Sprintf("%s#%d", key, seen[key])
+				}
+				r.Fn(FuncName(fn))
+				r.Check(bad == "", "C20/NIL-ELEM", key, w.InstrPos(ld), "the list element is dereferenced only after a nil test", "an element of "+fld+" is dereferenced at "+bad+" without a nil test: the linter reads Chart.yaml without validation, a null list entry panics")
+			}
+		}
+	}
+	if n == 0 {
+		r.OKTrivial("C20/NIL-ELEM", "lint/none", "-", "no lint rule dereferences elements of an unvalidated decoded list")
+	}
+}
+
 func c20Recover(w *World, r *Report) {
 	for _, e := range []struct{ rel, name, what string }{
 		{"pkg/engine", "Engine.render", "template rendering"},
@@ -599,48 +716,64 @@ func c20Depth(w *World, r *Report) {
 		}
 	}
 	r.Check(bad == "" && n >= 2, "C20/DEPTH-LIMIT", "tpl/shared-counter", w.Pos(tpl.Pos()), "nested include/tpl closures receive the enclosing counter map", "a nested include/tpl closure gets a fresh depth counter (at "+bad+"): recursion through tpl is no longer bounded")
-	// includeFun: ExecuteTemplate unreachable on the over-limit edge
-	for _, f := range withAnon(inc) {
-		if f == inc {
-			continue
-		}
-		g := FullGraph(f)
-		var over []Edge
-		for _, e := range relEdges(f, func(v ssa.Value) bool { _, c := v.(*ssa.Const); return !c }, func(v ssa.Value) bool { _, c := constInt(v); return c }) {
-			if e.Rel == token.GTR || e.Rel == token.GEQ { // counter above / at the limit
-				over = append(over, e.Edge)
+	// includeFun and tplFun: the template execution is unreachable on the over-limit edge
+	type lim struct {
+		outer *ssa.Function
+		exec  string
+		key   string
+	}
+	for _, l := range []lim{{inc, "ExecuteTemplate", "include/limit"}, {tpl, "Execute", "tpl/limit"}} {
+		for _, f := range withAnon(l.outer) {
+			if f == l.outer {
+				continue
 			}
-		}
-		var exec ssa.CallInstruction
-		for _, c := range callInstrs(f) {
-			if cal, _ := calleeOf(c.Common()); cal != nil && fnPkgPath(cal) == "text/template" && cal.Name() == "ExecuteTemplate" {
-				exec = c
-			}
-		}
-		okLimit := false
-		if exec != nil && len(over) > 0 {
-			okLimit = true
-			for _, e := range over {
-				if len(e.To().Instrs) > 0 {
-					if reach, _ := g.PathExists(IPos{e.To(), -1}, posOf(exec), Avoid{}); reach {
-						okLimit = false
-					}
+			hasExec := false
+			for _, c := range callInstrs(f) {
+				if cal, _ := calleeOf(c.Common()); cal != nil && fnPkgPath(cal) == "text/template" && cal.Name() == l.exec {
+					hasExec = true
 				}
 			}
-			// and the counter is incremented before executing
-			incd := false
-			for _, b := range f.Blocks {
-				for _, in := range b.Instrs {
-					if mu, ok := in.(*ssa.MapUpdate); ok {
-						if bo, ok := mu.Value.(*ssa.BinOp); ok && bo.Op == token.ADD && g.DominatesInstr(mu, posOf(exec)) || isOneConst(mu.Value) {
-							incd = true
+			if !hasExec {
+				continue
+			}
+			g := FullGraph(f)
+			var over []Edge
+			for _, e := range relEdges(f, func(v ssa.Value) bool { _, c := v.(*ssa.Const); return !c }, func(v ssa.Value) bool { _, c := constInt(v); return c }) {
+				if e.Rel == token.GTR || e.Rel == token.GEQ { // counter above / at the limit
+					over = append(over, e.Edge)
+				}
+			}
+			var exec ssa.CallInstruction
+			for _, c := range callInstrs(f) {
+				if cal, _ := calleeOf(c.Common()); cal != nil && fnPkgPath(cal) == "text/template" && cal.Name() == l.exec {
+					exec = c
+				}
+			}
+			okLimit := false
+			if exec != nil && len(over) > 0 {
+				okLimit = true
+				for _, e := range over {
+					if len(e.To().Instrs) > 0 {
+						if reach, _ := g.PathExists(IPos{e.To(), -1}, posOf(exec), Avoid{}); reach {
+							okLimit = false
 						}
 					}
 				}
+				// and the counter is incremented before executing
+				incd := false
+				for _, b := range f.Blocks {
+					for _, in := range b.Instrs {
+						if mu, ok := in.(*ssa.MapUpdate); ok {
+							if bo, ok := mu.Value.(*ssa.BinOp); ok && bo.Op == token.ADD && g.DominatesInstr(mu, posOf(exec)) || isOneConst(mu.Value) {
+								incd = true
+							}
+						}
+					}
+				}
+				okLimit = okLimit && incd
 			}
-			okLimit = okLimit && incd
+			r.Check(okLimit, "C20/DEPTH-LIMIT", l.key, w.Pos(f.Pos()), "the template is executed only below the depth limit, after the counter was raised", "the "+strings.TrimSuffix(l.key, "/limit")+" depth limit does not stop execution (or the counter is not raised): a template that reaches itself recurses until the stack overflows")
 		}
-		r.Check(okLimit, "C20/DEPTH-LIMIT", "include/limit", w.Pos(f.Pos()), "the included template is executed only below the depth limit, after the counter was raised", "the include depth limit no longer stops execution (or the counter is not raised)")
 	}
 	// strvals: nestedNameLevel compared with MaxNestedNameLevel on the recursive edge
 	key := w.Fn("pkg/strvals", "parser.key")
